@@ -371,6 +371,24 @@ def opt_filter(eng, st, fr, args, fn, site):
     return out
 
 
+def array_map(eng, st, fr, args, fn, site):
+    """[a, b, c].map(f): element-wise application when every application has a single outcome"""
+    arr = args[0]
+    if not (arr[0] == 'agg' and arr[1] == 'array'):
+        return None
+    out = []
+    for e in arr[3]:
+        alts = eng.apply_fn(st, fr, args[1], [e])
+        if not alts or len(alts) != 1 or alts[0][1]:
+            return None
+        out.append(alts[0][0])
+    return ('agg', 'array', None, tuple(out))
+
+
+def _rb_or_else_opt(var, v, keep=None):
+    return v if var == 'None' and keep is None and v is not None else ('agg', OPT, 'Some', (keep,))
+
+
 def bool_then_some(eng, st, fr, args, fn, site):
     b, v = args[0], args[1]
     if is_int_const(b):
@@ -726,6 +744,8 @@ SUMMARIES = {
     'std::option::Option::<T>::map_or': map_or_else(OPT, with_default_fn=False),
     'std::result::Result::<T, E>::map_or': map_or_else(RES, with_default_fn=False),
     'std::option::Option::<T>::zip': opt_zip,
+    'std::array::<impl [T; N]>::map': array_map,
+    'std::option::Option::<T>::or_else': hof(OPT, 'None', _rb_or_else_opt),
     'std::option::Option::<std::result::Result<T, E>>::transpose': opt_transpose,
     'std::option::Option::<T>::filter': opt_filter,
     'std::bool::<impl bool>::then_some': bool_then_some,
